@@ -251,6 +251,19 @@ def run_unit(u, b, keep=None, trace=False, use_cache=True):
         if rc != 0:
             res['error'] = 'goto-cc: ' + (so + se)[-2500:]
             return res
+        if u.get('pre_unwind'):
+            # loops without a loop contract inside a unit that applies loop contracts are unwound (with unwinding
+            # assertions) before the contract instrumentation, as DFCC requires
+            ugb = os.path.join(out, 'u.gb')
+            pre = os.path.join(out, 'u_pre.gb')
+            cmdp = ['goto-instrument', '--unwinding-assertions']
+            for k, v in u['pre_unwind'].items():
+                cmdp += ['--unwindset', '%s:%d' % (k, v)]
+            rc, so, se, _ = sh(cmdp + [ugb, pre], timeout=300)
+            if rc != 0:
+                res['error'] = 'goto-instrument (pre-unwind): ' + (so + se)[-2000:]
+                return res
+            gi = [pre if x == ugb else x for x in gi]
         rc, so, se, _ = sh(gi, timeout=600)
         if rc != 0:
             res['error'] = 'goto-instrument: ' + (so + se)[-2500:]
